@@ -8,7 +8,7 @@ fams = []
 def fam(name, entry, n, tier='quick', witness=False, w=1):
     defs = ['N=%d' % n] + (['WITNESS=1'] if witness else [])
     fams.append(Family('%s-n%d%s' % (name, n, '-witness' if witness else ''), 'h_c18.c', entry, defs,
-                       opts={'fp_traps': 1, 'time_limit': 420 if tier == 'quick' else 2400, 'max_viol': 400, 'query_timeout_ms': 60000}, tier=tier, witness=witness, weight=w, validate=2))
+                       opts={'fp_traps': 1, 'time_limit': 900 if tier == 'quick' else 2400, 'max_viol': 400, 'query_timeout_ms': 60000}, tier=tier, witness=witness, weight=w, validate=2))
 for n in (1, 2, 3, 4):
     fam('ds-sort', 'h_ds_sort', n, w=n * n)
 fam('ds-sort', 'h_ds_sort', 3, witness=True)
